@@ -159,7 +159,8 @@ def _dumpstruct(
 
         if color:
             foreground, background = colors[ci % len(colors)]
-            palette.append((structure._sizes[field._name], background))
+            # Bit fields have no recorded size of their own, and neither have the fields of a structure that wasn't read
+            palette.append((getattr(structure, "_sizes", {}).get(field._name, 0), background))
         ci += 1
 
         value = getattr(structure, field._name)
